@@ -16,6 +16,7 @@ from .utils import (
     DictPile,
     cached_property,
     is_tooled,
+    tooling_lock,
 )
 
 _valid_hashvars = ("#enter", "#error", "#exit", "#receive", "#value", "#yield")
@@ -620,22 +621,28 @@ def dict_resolver(env):
                     " to select. It will return the proper way to refer to it."
                 )
 
-            try:
-                co = codefind.find_code(*hierarchy, module=module or "__main__")
-            except (KeyError, ImportError, TypeError, ValueError):
-                # TypeError, ValueError: module names such as "." or ".."
-                raise CodeNotFoundError(
-                    f"Cannot find a function for the reference '{x}'."
-                    " Try calling `ptera.refstring` on the function you want"
-                    " to select. It will return the proper way to refer to it."
-                )
+            # (under the lock: another thread may be in the middle of
+            # swapping the code of the function)
+            with tooling_lock:
+                try:
+                    co = codefind.find_code(
+                        *hierarchy, module=module or "__main__"
+                    )
+                except (KeyError, ImportError, TypeError, ValueError):
+                    # TypeError, ValueError: module names such as "." or ".."
+                    raise CodeNotFoundError(
+                        f"Cannot find a function for the reference '{x}'."
+                        " Try calling `ptera.refstring` on the function you"
+                        " want to select. It will return the proper way to"
+                        " refer to it."
+                    )
 
-            funcs = [
-                fn
-                for fn in codefind.get_functions(co)
-                if inspect.isfunction(fn)
-                and not getattr(fn, "__ptera_discard__", False)
-            ]
+                funcs = [
+                    fn
+                    for fn in codefind.get_functions(co)
+                    if inspect.isfunction(fn)
+                    and not getattr(fn, "__ptera_discard__", False)
+                ]
             if not funcs:  # pragma: no cover
                 raise Exception(f"Reference `{x}` cannot be resolved.")
             elif len(funcs) > 1:  # pragma: no cover
